@@ -141,6 +141,10 @@ class RandomStub:
     def random(self, size=None):
         return self._rec("random", size=size)
 
+
+    def random_sample(self, size=None):
+        return self.random(size)
+
     def rand(self, *shape):
         return self._rec("rand", shape=shape)
 
